@@ -62,6 +62,10 @@ func WithNodeFactory[T comparable](factory nodeFactory[T]) treeOption[T] {
 }
 
 func (t *Tree[T]) Walk(f func(T, int)) {
+	if t.root == nil {
+		// empty tree: nothing to visit
+		return
+	}
 	t.walk(t.root, 0, f)
 }
 
